@@ -152,6 +152,12 @@ def run(R):
                 continue
             e = allow.get((f.spath, src, cont))
             if e is None:
+                # a `loop-keyed` row is a structural claim about the loop body (re-proved below): it holds wherever the loop lives,
+                # e.g. after the loop was moved into a helper function
+                moved = [e2 for e2 in table["allow"] if e2["source"] == src and e2.get("container", "") == cont and e2.get("mode") == "loop-keyed"]
+                if moved:
+                    e = moved[0]
+            if e is None:
                 R.violation("C18.sources", key,
                             "%s source `%s` in %s is neither order-insensitive by shape nor listed"
                             % (kind, name, f.path), [c.loc()],
